@@ -58,9 +58,17 @@ func GenWorld(rng *rand.Rand, o WorldOpts) *World {
 	zones := layouts[li]
 	// locations and maps
 	if !o.NoLocations && (rng.Intn(5) != 0 || o.ForceECS) {
+		// location ids: ordinary ones plus pairs whose bytes collide when printed without padding or separators
+		// ({1,23}/{12,3} -> "123"; {0,11}/{0,1} next to a type number), as a cache key might do
 		all := []string{"aa", "bb", "c\x00", "\x00\x07"}
+		switch rng.Intn(4) {
+		case 0:
+			all = []string{"\x01\x17", "\x0c\x03", "aa", "\x00\x07"}
+		case 1:
+			all = []string{"\x00\x0b", "\x00\x01", "bb", "\x01\x10"}
+		}
 		w.Locs = all[:1+rng.Intn(3)]
-		if rng.Intn(6) == 0 {
+		if rng.Intn(5) == 0 {
 			w.Locs = all
 		}
 	}
@@ -120,9 +128,27 @@ func GenWorld(rng *rand.Rand, o WorldOpts) *World {
 			addOwner(expand(x, "ns", z))
 		}
 		// sometimes an additional location-tagged apex (SOA and NS tagged alike)
+		taggedSOA := "" // a zone never gets two SOA records under one (owner, location): which one is served would be unspecified
 		if len(w.Locs) > 0 && rng.Intn(4) == 0 {
 			l := w.Locs[rng.Intn(len(w.Locs))]
 			b.nsLine(true, z, l, "loc-ns."+join("nsx", z), b.randIP())
+			taggedSOA = l
+		}
+		// apex records split between a location and the untagged set: an extra name server only for one
+		// location (NS tagged, SOA untagged), or a location-specific SOA next to untagged NS
+		if len(w.Locs) > 0 && rng.Intn(3) == 0 {
+			l := w.Locs[rng.Intn(len(w.Locs))]
+			var ip net.IP
+			if rng.Intn(2) == 0 {
+				ip = b.randIP()
+			}
+			b.nsLine(false, z, l, "extra-ns."+join("nsl", z), ip)
+			addOwner("extra-ns." + join("nsl", z))
+		}
+		if len(w.Locs) > 0 && rng.Intn(5) == 0 {
+			if l := w.Locs[rng.Intn(len(w.Locs))]; l != taggedSOA {
+				b.soaLine(z, l)
+			}
 		}
 		nNames := 3 + rng.Intn(8)
 		if o.Small {
